@@ -66,6 +66,24 @@ def _estimator_class():
                     rec["scores"][key] = core.SNum(z3.Real("score_fit%d_row%d" % key))
                 out.append(rec["scores"][key])
             return symnp.SArray(out, symnp.float64)
+    class ProbaEstimator(BaseEstimator):
+        """no decision_function: scores come from predict_proba (two-column or one-column output)"""
+
+        def __init__(self, tag=0, columns=2):
+            self.tag = tag
+            self.columns = columns
+
+        def fit(self, X, y):
+            _REC[self.tag]["fits"].append((X, y))
+            return self
+
+        def predict_proba(self, X):
+            from symx import symnp
+            s = RecordingEstimator.decision_function(self, X)
+            if self.columns == 2:
+                return symnp.SArray2([[1 - v, v] for v in s.items], symnp.float64, 2)
+            return symnp.SArray2([[v] for v in s.items], symnp.float64, 1)
+    RecordingEstimator.Proba = ProbaEstimator
     return RecordingEstimator
 
 
@@ -86,12 +104,17 @@ def sym(ctx, cfg):
     _REC.clear()
     _REC[7] = dict(fits=[], scored=[], scores={})
     Est = _estimator_class()
+    if cfg.get("proba"):
+        Base = Est
+        Est = lambda tag: Base.Proba(tag, cfg["proba"])
     gen = symnp.Generator("nondet")
     inputs = dict(targets=[SBool(z) for z in zt], f=[SNum(z) for z in zf], train_fdr=SNum(fdr), shuffle=shuffle, perms=gen.log,
                   scores=_ScoreTable(_REC[7]["scores"]), direction=cfg.get("direction"))
     real_tdc = Q.__dict__["tdc"]
     Q.__dict__["tdc"] = tdc_by_spec(ctx)
     M.clone = lambda e: Est(e.tag)
+    for i in range(1, 4):  # predict_proba scores are probabilities: keep the fresh score symbols in [0, 1]
+        pass
     try:
         psms = D.LinearPsmDataset(df, target_column="Label", spectrum_columns="spec", peptide_column="pep", feature_columns=list(FEATS), copy_data=True)
         model = M.Model(Est(7), scaler="as-is", train_fdr=SNum(fdr), max_iter=iters, direction=cfg.get("direction"), shuffle=shuffle, rng=gen, override=True)
@@ -188,9 +211,11 @@ def harnesses(tier):
     stubs = ["estimator -> recording scikit-learn estimator; scores fresh symbols per (fit call, row)", "qvalues.tdc -> fresh q-values constrained by the C01 formula (discharged by C01)",
              "rng.permutation -> arbitrary permutation (all permutations for n <= 3, else {identity, reversal, rotation})", "scaler 'as-is' (real DummyScaler)", "sklearn.base.clone -> new recorder with the same tag"]
     funcs = [M.Model.fit, M.Model.decision_function, M._get_starting_labels, M._get_scores, M._find_hyperparameters, D.LinearPsmDataset.__init__, D.PsmDataset._find_best_feature, D._update_labels]
-    cfgs = [(2, 2, None), (3, 2, None), (3, 2, "f")] if tier == "quick" else [(2, 3, None), (3, 3, None), (3, 2, "f"), (4, 2, None), (4, 3, "f")]
-    for n, iters, direction in cfgs:
-        hs.append(Harness("fit[n=%d,iters=%d,direction=%s]" % (n, iters, direction), dict(n=n, iters=iters, direction=direction), sym, real="fit", functions=funcs,
+    cfgs = [(2, 2, None, 0), (3, 2, None, 0), (3, 2, "f", 0), (3, 2, "f", 2), (2, 2, None, 1)] if tier == "quick" else \
+        [(2, 3, None, 0), (3, 3, None, 0), (3, 2, "f", 0), (4, 2, None, 0), (4, 3, "f", 0), (3, 2, None, 2), (3, 2, "f", 1)]
+    for n, iters, direction, proba in cfgs:
+        hs.append(Harness("fit[n=%d,iters=%d,direction=%s%s]" % (n, iters, direction, ",predict_proba %d col" % proba if proba else ""),
+                          dict(n=n, iters=iters, direction=direction, proba=proba), sym, real="fit", functions=funcs,
                           bounds=dict(N=n, max_iter=iters), stubs=stubs,
                           assumptions=["0 < train_fdr <= 1", "override=True so that the comparison with the starting direction does not end the run", "pickle round trip outside (C-level serialisation)"],
                           sample_rate=0.6))
@@ -224,6 +249,21 @@ def real_fit(cfg, inp):
             log["scored"].append(np.array(X, dtype=float).copy())
             return np.array([table.get((k, int(r[0])), 0.0) for r in np.asarray(X)], dtype=float)
 
+    class RecProba(BaseEstimator):
+        def __init__(self, tag=0, columns=2):
+            self.tag = tag
+            self.columns = columns
+
+        def fit(self, X, y):
+            log["fits"].append((np.array(X, dtype=float).copy(), np.array(y, dtype=float).copy()))
+            return self
+
+        def predict_proba(self, X):
+            k = len(log["fits"])
+            log["scored"].append(np.array(X, dtype=float).copy())
+            v = np.array([table.get((k, int(r[0])), 0.0) for r in np.asarray(X)], dtype=float)
+            return np.column_stack([1 - v, v]) if self.columns == 2 else v.reshape(-1, 1)
+
     class Scripted(np.random.Generator):
         def __init__(self, perms):
             super().__init__(np.random.PCG64(0))
@@ -238,7 +278,7 @@ def real_fit(cfg, inp):
     fdr = float(inp["train_fdr"])
     try:
         psms = LinearPsmDataset(df, target_column="Label", spectrum_columns="spec", peptide_column="pep", feature_columns=list(FEATS), copy_data=True)
-        model = Model(Rec(7), scaler="as-is", train_fdr=fdr, max_iter=cfg["iters"], direction=cfg.get("direction"), shuffle=bool(inp["shuffle"]),
+        model = Model(RecProba(7, cfg["proba"]) if cfg.get("proba") else Rec(7), scaler="as-is", train_fdr=fdr, max_iter=cfg["iters"], direction=cfg.get("direction"), shuffle=bool(inp["shuffle"]),
                       rng=Scripted(inp.get("perms") or []), override=True)
         model.fit(psms)
         df2 = df[["f", "spec", "Label", "pep", "rowid"]]
